@@ -59,7 +59,7 @@ func runChainTickCase(o *hx.Out, f *hx.Flags, k int, r *prng.R) {
 	// 1/4: Echidna only from height hfAt on: GetMaxTraceableBlocks is the config value before it and the
 	// Policy's (initialised with Genesis.MaxTraceableBlocks <= MaxTraceableBlocks) from then on
 	hfAt, genMtb := uint32(0), mtb0
-	if false && r.Chance(1, 4) {
+	if r.Chance(1, 4) {
 		// not generated: with hardforks switched on mid-chain the natives' own storage changes are not
 		// covered by this harness's reading of the contract storage (dumpAll); the switch is covered
 		// by Props/C11 mtb_only_lowers_along_chain on the translated GetMaxTraceableBlocks
@@ -104,6 +104,9 @@ func runChainTickCase(o *hx.Out, f *hx.Flags, k int, r *prng.R) {
 	if hfAt > 0 {
 		o.Count("gctick:echidna-later")
 	}
+	if hfAt > 0 {
+		h.line(fmt.Sprintf("hfcfg %d %d", hfAt, genMtb), "ok")
+	}
 	lastMtb := bc.GetMaxTraceableBlocks()
 	h.line(fmt.Sprintf("cfg %d %d %d %d", gcp, b2i(p2p), ssi, bc.GetMaxTraceableBlocks()), "ok")
 	e := neotest.NewExecutor(t, bc, acc, acc)
@@ -118,6 +121,16 @@ func runChainTickCase(o *hx.Out, f *hx.Flags, k int, r *prng.R) {
 		if err != nil {
 			h.fail("no-state-root", "height %d: %v", ht, err)
 			return false
+		}
+		// natives activated by a hardfork are deployed (get their storage) at that height
+		for _, nc := range bc.GetNatives() {
+			known := false
+			for _, id := range ids {
+				known = known || id == nc.ID
+			}
+			if !known {
+				ids = append(ids, nc.ID)
+			}
 		}
 		cur := dumpAll(bc, ids)
 		h.committed(ht, diffBatch(prev, cur), sr.Root, cur, false)
@@ -188,10 +201,14 @@ func runChainTickCase(o *hx.Out, f *hx.Flags, k int, r *prng.R) {
 		if !record() {
 			return false
 		}
-		if now := bc.GetMaxTraceableBlocks(); ask < 0 && now != lastMtb {
-			// the hardfork switch of GetMaxTraceableBlocks: the model takes it as a lowering (newMtbOf)
-			h.line(fmt.Sprintf("mtbhf %d", now), fmt.Sprintf("mtb=%d", now))
-			o.Count("gctick:mtb-hardfork-switch")
+		if hfAt > 0 {
+			// the driver computes the node's MaxTraceableBlocks at this height with the translated
+			// GetMaxTraceableBlocks (the hardfork switch included)
+			now := bc.GetMaxTraceableBlocks()
+			h.line("mtbnow", fmt.Sprintf("mtb=%d", now))
+			if now != lastMtb {
+				o.Count("gctick:mtb-hardfork-switch")
+			}
 		}
 		lastMtb = bc.GetMaxTraceableBlocks()
 		if ask >= 0 {
